@@ -265,8 +265,32 @@ fn check_file(env: &Env, rng: &mut Rng, id: usize, rec: &mut Rec) {
             expect.push(Ok(m));
         }
     }
+    // now and then one row is replaced by bytes that are not UTF-8: the reader reports an I/O error for that
+    // line (no line number is promised for it) and must go on counting and delivering the following rows
+    let mut bytes: Vec<u8> = text.clone().into_bytes();
+    let mut nonutf8 = false;
+    if rng.chance(1, 4) && expect.len() >= 2 {
+        let victim = rng.below(expect.len() - 1); // not the last row: its terminator handling is judged separately
+        // find the byte range of line victim+1 (0 = header)
+        let mut starts = vec![0usize];
+        for (i, b) in bytes.iter().enumerate() {
+            if *b == b'\n' {
+                starts.push(i + 1);
+            }
+        }
+        if victim + 2 < starts.len() {
+            let (a, b) = (starts[victim + 1], starts[victim + 2]);
+            let term: Vec<u8> = if bytes[..b].ends_with(b"\r\n") { b"\r\n".to_vec() } else { b"\n".to_vec() };
+            let mut bad: Vec<u8> = b"0041,PVALID,LATIN \xFF\xFE CAPITAL".to_vec();
+            bad.extend(term);
+            bytes.splice(a..b, bad);
+            expect[victim] = Err(None);
+            nonutf8 = true;
+        }
+    }
+    let text = String::from_utf8_lossy(&bytes).to_string();
     let path = env.out_dir.join(format!("c17-{}-{}.csv", std::process::id(), id));
-    if std::fs::write(&path, &text).is_err() {
+    if std::fs::write(&path, &bytes).is_err() {
         rec.note("HARNESS-ERROR: cannot write scratch CSV file");
         return;
     }
@@ -288,7 +312,7 @@ fn check_file(env: &Env, rng: &mut Rng, id: usize, rec: &mut Rec) {
             "csv-file-items-differ",
             Witness {
                 op: "CsvLineParser::from_path + iterate".into(),
-                case: format!("file={}", util::esc(&text)),
+                case: format!("{}file={}", if nonutf8 { "nonutf8-line=1;" } else { "" }, util::esc(&text)),
                 expected: detail.0,
                 observed: detail.1,
             },
@@ -499,6 +523,8 @@ pub fn replay(env: &Env, _op: &str, case: &str) -> Rec {
                 }
             }
         }
+    } else if case.starts_with("nonutf8-line=") {
+        rec.note("HARNESS-ERROR: this witness contains a line that is not UTF-8 and cannot be replayed from its text; re-run the check with the recorded seed");
     } else if let Some(text) = super::kv_get_last(case, "file").and_then(util::unesc) {
         let _ = std::fs::create_dir_all(&env.out_dir);
         let path = env.out_dir.join(format!("c17-replay-{}.csv", std::process::id()));
